@@ -178,3 +178,41 @@ Proof.
   - rewrite (wire_length t v Hw Ht). reflexivity.
   - exists (store E (norm t) v). apply c_decode_wire; assumption.
 Qed.
+
+(* ---------- C05: forward compatibility of the C decoder ---------- *)
+From BP Require Import Evolve CEvolveProofs.
+From BPGen Require GenPy.
+
+Lemma c_forward_compat_le t1 t2 v2 :
+  c_schema t1 -> c_schema t2 -> evolvesb (norm t1) (norm t2) = true -> has_ty (norm t2) v2 = true ->
+  c_decode_ty LE LE t1 (wire t2 v2) = COk (store LE (norm t1) (proj (norm t1) v2)).
+Proof.
+  intros (Hm & Hw1 & Hc1) (_ & Hw2 & _) He Ht.
+  exact (c_forward_compat_gen LE LE t1 t2 v2 eq_refl Hm Hw1 Hc1 Hw2 He Ht).
+Qed.
+
+Lemma c_forward_compat_be t1 t2 v2 :
+  c_schema t1 -> c_schema t2 -> evolvesb (norm t1) (norm t2) = true -> has_ty (norm t2) v2 = true ->
+  c_decode_ty BE BE t1 (wire t2 v2) = COk (store BE (norm t1) (proj (norm t1) v2)).
+Proof.
+  intros (Hm & Hw1 & Hc1) (_ & Hw2 & _) He Ht.
+  exact (c_forward_compat_gen BE BE t1 t2 v2 eq_refl Hm Hw1 Hc1 Hw2 He Ht).
+Qed.
+
+(* at every nesting depth and position the old C decoder leaves the cursor after the whole
+   evolved node *)
+Lemma c_cursor_le t1 : cev_ok LE LE t1.
+Proof. exact (cev_ok_all LE LE eq_refl t1). Qed.
+
+(* the skip formulas translated from bitproto.c are the Python ones wherever a decoder can be *)
+Lemma c_formulas :
+  (forall i ahead, ms_ito i ahead = GenPy.message_ito i ahead) /\
+  (forall i ahead cap ci, 0 < cap -> i + 16 <= ci ->
+     ar_ito i ahead ci cap = GenPy.array_ito i ahead cap ci) /\
+  (forall ito ci, ms_ito_taken ito ci = GenPy.ito_taken ito ci) /\
+  (forall ito ci, ar_ito_taken ito ci = GenPy.ito_taken ito ci).
+Proof.
+  repeat split; try reflexivity.
+  intros i ahead cap ci Hc Hi. unfold ar_ito, GenPy.array_ito.
+  rewrite Z.quot_div_nonneg by lia. reflexivity.
+Qed.
